@@ -136,7 +136,7 @@ func runC08(c *fw.Case) (o fw.Outcome) {
 			}
 		}
 		cut := present[r.Intn(len(present)-1)] // boundary: everything after optional IE "cut"
-		wrap16 := (c.Idx/4)%4 == 1 // by index: one aimed case in four aims at a multiple of 65536
+		wrap16 := (c.Idx/4)%4 == 1             // by index: one aimed case in four aims at a multiple of 65536
 		if r.Intn(len(present)) == 0 || wrap16 && (c.Idx/16)%2 == 0 {
 			cut = -1 // everything after the mandatory part: what is left when the FIRST optional IE is examined
 		}
